@@ -121,6 +121,15 @@ int main(int argc, char** argv) {
     for (size_t i = 0; i < ref.size(); i++) RCHECK((((uint8_t)s[i >> 3] >> (7 - (i & 7))) & 1) == (uint8_t)ref[i], "bit %zu is not what was written (MSB-first)", i);
     if (ref.size() & 7) RCHECK((((uint8_t)s.back()) & ((1u << (8 - (ref.size() & 7))) - 1)) == 0, "unset bits of the last byte are not zero");
   }
+  else if (m == "sw_write_str") {
+    // the std::string overload: blocks with zero bytes at the start, in the middle and at the end must be appended whole
+    size_t ws = A.u("g_wsize"); if (ws > (1u << 20)) ws = 3;
+    for (const string& blk : {string("ab\0cd", 5), string("\0xy", 3), string("xyz\0", 4), string("plain"), string()}) {
+      StringWriter w; w.extend_to(ws, 'q'); w.write(blk);
+      RCHECK(w.size() == ws + blk.size(), "write(std::string) of a %zu-byte block grew the buffer by %zu bytes", blk.size(), w.size() - ws);
+      RCHECK(memcmp(w.str().data() + ws, blk.data(), blk.size()) == 0 && w.str().compare(0, ws, string(ws, 'q')) == 0, "write(std::string): content");
+    }
+  }
   else if (m == "sw_write" || m == "sw_extend_to" || m == "sw_extend_by" || m == "sw_size") {
     size_t ws = A.u("g_wsize"); if (ws > (1u << 20) || size > (1u << 20)) return 2;
     StringWriter w; w.extend_to(ws, 'q'); string src(size, 'Z'); for (size_t i = 0; i < size; i++) src[i] = (char)(i * 13 + 1);
